@@ -325,6 +325,50 @@ func runSys(sc *SysScript) *sim.Outcome {
 	}
 	close(gate)
 	wg.Wait()
+	if sc.Shared {
+		// first use of a freshly loaded account key by many conversations at once (a client that starts OTR with all its
+		// contacts right after login), several times over: every conversation must see the same, correct key
+		for rep := 0; rep < 6; rep++ {
+			fresh := sim.PoolKey(rep % sim.PoolSize())
+			want := sim.PoolKey(rep % sim.PoolSize()).PublicKey().Fingerprint()
+			bad := make([]string, 16)
+			var wg2 sync.WaitGroup
+			gate2 := make(chan struct{})
+			for g := 0; g < 16; g++ {
+				wg2.Add(1)
+				go func(g int) {
+					defer wg2.Done()
+					defer func() {
+						if r := recover(); r != nil {
+							bad[g] = fmt.Sprint("panic: ", r)
+						}
+					}()
+					<-gate2
+					if g%2 == 0 {
+						if fp := fresh.PublicKey().Fingerprint(); string(fp) != string(want) {
+							bad[g] = fmt.Sprintf("fingerprint %x instead of %x", fp, want)
+							return
+						}
+					}
+					w := sim.NewWorld(sim.PartyOpts{Name: "A", KeyObj: fresh, Pol: sim.PolV3, SysRand: true}, sim.PartyOpts{Name: "B", KeyI: (rep + 1 + g) % sim.PoolSize(), Pol: sim.PolV3, SysRand: true})
+					if !w.Handshake(g & 1) {
+						bad[g] = "its key exchange did not complete"
+						return
+					}
+					if fp := w.P[1].C.GetTheirKey().Fingerprint(); string(fp) != string(want) {
+						bad[g] = fmt.Sprintf("the peer learnt fingerprint %x instead of %x", fp, want)
+					}
+				}(g)
+			}
+			close(gate2)
+			wg2.Wait()
+			for g, b := range bad {
+				if b != "" {
+					return o.Fail("C20/shared-key-object", "16 conversations made their first use of one freshly loaded account key at the same moment; conversation %d: %s", g, b)
+				}
+			}
+		}
+	}
 	seen := map[[8]byte]int{}
 	for i := 0; i < k; i++ {
 		if errs[i] != nil {
